@@ -609,7 +609,7 @@ def load_findings(prop):
     return open_, fixed
 
 
-def run_check(modname, tier, seed, only=None, mutations=None, write_evidence=True, canaries=True, verbose=False):
+def run_check(modname, tier, seed, only=None, mutations=None, write_evidence=True, canaries=True, verbose=False, validate_only=False):
     t_start = time.time()
     from . import loader
 
@@ -704,7 +704,7 @@ def run_check(modname, tier, seed, only=None, mutations=None, write_evidence=Tru
     say(f"[{prop}] translator validation: {validated}/{len(vidx)} configurations agree (instrumented-with-constants vs plain import)")
 
     # ---------------- symbolic exploration
-    jobs = collections.deque((i, []) for i in range(len(configs)))
+    jobs = collections.deque((i, []) for i in range(len(configs)) if not validate_only)
     running = {}
     per_cfg = collections.defaultdict(lambda: dict(paths=0, feasible=0, infeasible=0, unsupported=0, claims=0, budget_hit=False))
     stats = collections.Counter()
@@ -749,6 +749,8 @@ def run_check(modname, tier, seed, only=None, mutations=None, write_evidence=Tru
         if pcf["budget_hit"]:
             inconclusive.append(dict(cfg=configs[i], claim="<paths>", why=f"path budget {opts['max_paths']} exhausted"))
     for i in range(len(configs)):
+        if validate_only:
+            break
         if per_cfg[i]["feasible"] == 0 and per_cfg[i]["unsupported"] == 0 and not per_cfg[i].get("skipped"):
             harness_errors.append(f"vacuous: no feasible path for cfg={cfg_key(configs[i])}")
 
@@ -1025,12 +1027,13 @@ def main(argv=None):
     ap.add_argument("--no-evidence", action="store_true")
     ap.add_argument("--no-canaries", action="store_true")
     ap.add_argument("-v", "--verbose", action="store_true")
+    ap.add_argument("--validate-only", action="store_true", help="only the translator validation phase (seed sweeps)")
     a = ap.parse_args(argv)
     modname = a.check.lower()
     if a.replay:
         return replay_file(a.replay)
     mutations = json.loads(a.mutations) if a.mutations else None
-    res = run_check(modname, a.tier, a.seed, only=a.only, mutations=mutations, verbose=a.verbose)
+    res = run_check(modname, a.tier, a.seed, only=a.only, mutations=mutations, verbose=a.verbose, validate_only=a.validate_only)
     ev = res["evidence"]
     premod = importlib.import_module(f"checks.{modname}")
     # canary mutants: self-test of the check's sensitivity (thorough tier, informational)
@@ -1039,7 +1042,7 @@ def main(argv=None):
         for c in ev["coverage"]["canaries"]:
             print(f"[{ev['property_id']}] canary {c['name']}: {'detected' if c['detected'] else 'MISSED'} ({c['exit']})")
     ev["wall_s"] = round(ev["wall_s"], 2)
-    if not a.no_evidence and not mutations and not a.only:
+    if not a.no_evidence and not mutations and not a.only and not a.validate_only:
         os.makedirs(os.path.join(VERIF, "evidence"), exist_ok=True)
         json.dump(ev, open(os.path.join(VERIF, "evidence", f"{ev['property_id']}.json"), "w"), indent=1)
     c = ev["coverage"]
